@@ -108,6 +108,9 @@ type H2Case struct {
 	KeepAlive  bool     `json:"keep_alive"`
 	Shared     bool     `json:"shared_client"`
 	NoH2       bool     `json:"target_without_h2"` // the documented fatal condition
+	// gun option `redirect: true` (see Redir; every Location stays on the https target: a redirect of an http2 gun to
+	// an http:// URL ends in the documented fatal condition)
+	Redirect bool `json:"redirect,omitempty"`
 }
 
 func genH2(t *rapid.T) H2Case {
@@ -124,7 +127,21 @@ func genH2(t *rapid.T) H2Case {
 		c.Behs = append(c.Behs, genH2Beh(t, good, connFaults))
 	}
 	if !c.NoH2 {
-		for k := 0; k < n-1; k++ {
+		c.Redirect = rapid.IntRange(0, 2).Draw(t, "redirectOption") == 0
+		oneIn := 8
+		if c.Redirect {
+			oneIn = 2
+		}
+		redirected := false
+		for i := 0; i < n-1; i++ {
+			if rapid.IntRange(0, oneIn-1).Draw(t, "redirected") == 0 {
+				c.Behs[i].Redir = genRedir(t)
+				redirected = true
+			}
+		}
+		// a failing handshake could hit a follow-up request in the middle of a followed chain (with keep-alives off
+		// each of them needs a connection), which would make a well-answered entry fail: not combined
+		for k := 0; k < n-1 && !(c.Redirect && redirected); k++ {
 			c.Handshakes = append(c.Handshakes, genHs(t, 3))
 		}
 	}
@@ -173,6 +190,7 @@ func checkH2(c H2Case, o *vf.Obs) error {
 	tg, mu := target.SharedH2(!c.NoH2)
 	mu.Lock()
 	defer mu.Unlock()
+	watch := newRedirWatch()
 	var hmu sync.Mutex
 	hsAt := map[int]int{} // entry -> index of the handshake of the connection the entry's request arrived on
 	tg.Reset(func(k int) string {
@@ -188,6 +206,12 @@ func checkH2(c H2Case, o *vf.Obs) error {
 		hmu.Lock()
 		hsAt[i] = hs
 		hmu.Unlock()
+		if !watch.seen(i) {
+			return Beh{Kind: "ok"}.h2resp()
+		}
+		if resp, ok := c.Behs[i].Redir.answer(fmt.Sprintf("/e%d", i), r.RequestURI, "https", tg.Addr()); ok {
+			return target.H2Resp{Resp: resp}
+		}
 		return c.Behs[i].h2resp()
 	})
 	defer tg.Reset(nil, nil)
@@ -199,7 +223,8 @@ func checkH2(c H2Case, o *vf.Obs) error {
 	defer pand.Remove(name)
 	out := pand.TempName("c19h2", ".phout")
 	defer pand.Remove(out)
-	gun := map[string]any{"type": "http2", "target": tg.Addr(), "response-header-timeout": h2Timeout, "disable-keep-alives": !c.KeepAlive}
+	gun := map[string]any{"type": "http2", "target": tg.Addr(), "response-header-timeout": h2Timeout, "disable-keep-alives": !c.KeepAlive,
+		"redirect": c.Redirect}
 	if c.Shared {
 		gun["shared-client"] = map[string]any{"enabled": true, "client-number": 1}
 	}
@@ -211,7 +236,11 @@ func checkH2(c H2Case, o *vf.Obs) error {
 		"rps":     map[string]any{"type": "once", "times": len(c.Behs) + 5},
 		"startup": map[string]any{"type": "once", "times": c.Instances},
 	}
-	runErr, err := runPoolErr(pool)
+	runErr, err := runPoolWatched(pool, watch)
+	var hung *runawayErr
+	if errors.As(err, &hung) {
+		return &runawayErr{why: fmt.Sprintf("%v (http2 gun, redirect %v, behaviours %s)", err, c.Redirect, behsString(c.Behs)), stacks: hung.stacks}
+	}
 	if err != nil {
 		return err
 	}
@@ -259,6 +288,7 @@ func checkH2(c H2Case, o *vf.Obs) error {
 		}
 	}
 	notSeen, mis, goodAfterBad, unseenTimeout := 0, 0, false, false
+	rs := redirSeen{}
 	for i, b := range c.Behs {
 		l, ok := byTag[fmt.Sprintf("t%d", i)]
 		if !ok {
@@ -270,6 +300,13 @@ func checkH2(c H2Case, o *vf.Obs) error {
 			if clean(l) {
 				return fmt.Errorf("request %d never reached the target (handshakes %q) but its sample is a clean 200\n%s", i, hss, data)
 			}
+			continue
+		}
+		if done, err := judgeRedirected(b.Redir, c.Redirect, l, fmt.Sprintf("request %d", i), false, rs); err != nil {
+			return suspectIfTimeout(l, fmt.Errorf("%v (http2 gun, %d requests seen by the target for it; behaviours %s, %d instances, shared client %v, keep-alive %v)\n%s",
+				err, watch.count(i), behsString(c.Behs), c.Instances, c.Shared, c.KeepAlive, data))
+		} else if done {
+			mis++
 			continue
 		}
 		if b.Kind == "ok" {
@@ -310,6 +347,8 @@ func checkH2(c H2Case, o *vf.Obs) error {
 	o.ClassIf(c.Instances >= 2, "h2_instances_ge_2")
 	o.ClassIf(c.Shared, "h2_shared_client")
 	o.ClassIf(c.KeepAlive, "h2_keep_alive")
+	o.ClassIf(c.Redirect, "redirect_option_on")
+	rs.classes(o, "http2_gun")
 	if goodAfterBad {
 		o.NonTrivial()
 	}
@@ -319,7 +358,7 @@ func checkH2(c H2Case, o *vf.Obs) error {
 func TestHTTP2Gun(t *testing.T) {
 	pand.Init()
 	r := vf.Start(t, "C19")
-	vf.Check(r, genH2, vf.LoadTolerant(25*time.Millisecond, timeoutsMustRepeat(checkH2)))
+	vf.Check(r, genH2, vf.LoadTolerant(25*time.Millisecond, timeoutsMustRepeat(hangsMustRepeat(checkH2))))
 }
 
 // ---------------- http2/scenario ----------------
